@@ -2,6 +2,7 @@ package c15
 
 import (
 	"fmt"
+	"math"
 	"os"
 	"path/filepath"
 	"reflect"
@@ -427,7 +428,6 @@ func dedup(xs []string) []string {
 	return out
 }
 
-
 // TestReinitialize: the Configure API used in several steps - attach sources, Initialize, attach more
 // (files sort to the front), Initialize again. After the last Initialize the effective configuration is
 // the merge of ALL attached sources in the contract sequence.
@@ -477,6 +477,15 @@ func TestReinitialize(t *testing.T) {
 		}
 		if err := c.Initialize(); err != nil {
 			t.Fatalf("C15: Initialize: %v", err)
+		}
+		// reading in between (keys, parents, absent keys) must not freeze what later sources may still override
+		peeked := rapid.IntRange(0, 2).Draw(t, "peek") > 0
+		if peeked {
+			for _, p := range schema {
+				_ = c.Get(p)
+				_ = c.Get(strings.Split(p, ".")[0])
+			}
+			_ = c.Get("c15.absent")
 		}
 		for i := split; i < ns; i++ {
 			attach(i)
@@ -532,7 +541,6 @@ func TestReinitialize(t *testing.T) {
 	})
 }
 
-
 // TestSharedLoaderList: one loader list (a file in the middle) handed to two containers through
 // SetConfigLoader: the first container must not disturb what the second one loads.
 func TestSharedLoaderList(t *testing.T) {
@@ -571,5 +579,106 @@ func TestSharedLoaderList(t *testing.T) {
 			}
 		}
 		kit.Rec.Case(fmt.Sprintf("shared list n=%d filepos=%d", n, filePos), true, "shared-loader-list")
+	})
+}
+
+// ---- user-defined loaders of all three ordering classes, Order values up to the ends of the int range --------
+
+type uLoader struct {
+	data  []byte
+	order int
+}
+
+func (l *uLoader) LoadConfig() ([]byte, error) { return l.data, nil }
+
+type ordULoader struct{ uLoader }
+
+func (l *ordULoader) Order() int { return l.order }
+
+type prioULoader struct{ uLoader }
+
+func (l *prioULoader) Order() int { return l.order }
+func (l *prioULoader) Priority()  {}
+
+// TestOrderedLoaders: every loader supplies the shared key c15o.k (its own index) and a key of its own. The loader
+// sequence is priority-ordered loaders by Order, then ordered ones by Order, then the unordered ones as added; the
+// last supplier of c15o.k in that sequence wins (among loaders tied on Order: any of them), no own key is lost.
+func TestOrderedLoaders(t *testing.T) {
+	kit.Rec.Rule(rule)
+	orders := []int{math.MinInt, math.MinInt + 1, -1000000, -1, 0, 0, 1, 7, 1 << 40, math.MaxInt - 1, math.MaxInt}
+	rapid.Check(t, func(t *rapid.T) {
+		n := rapid.IntRange(1, 5).Draw(t, "n")
+		type spec struct{ class, order int }
+		specs := make([]spec, n)
+		var ls []configure.Loader
+		var d []string
+		for i := range specs {
+			specs[i] = spec{rapid.IntRange(0, 2).Draw(t, "class"), rapid.SampledFrom(orders).Draw(t, "order")}
+			u := uLoader{data: []byte(fmt.Sprintf("c15o:\n  k: %d\n  own%d: %d\n", i, i, 100+i)), order: specs[i].order}
+			switch specs[i].class {
+			case 0:
+				ls = append(ls, &prioULoader{u})
+				d = append(d, fmt.Sprintf("%d:priority(%d)", i, u.order))
+			case 1:
+				ls = append(ls, &ordULoader{u})
+				d = append(d, fmt.Sprintf("%d:ordered(%d)", i, u.order))
+			default:
+				ls = append(ls, &u)
+				d = append(d, fmt.Sprintf("%d:unordered", i))
+			}
+		}
+		var ops []app.SettingOption
+		if rapid.Bool().Draw(t, "oneoption") {
+			ops = append(ops, app.SetConfigLoader(ls...))
+		} else {
+			ops = append(ops, app.SetConfigLoader(ls[0]))
+			for _, l := range ls[1:] {
+				ops = append(ops, app.AddConfigLoader(l))
+			}
+		}
+		saved := os.Args
+		os.Args = saved[:1]
+		out := kit.RunApp(ops...)
+		os.Args = saved
+		desc := "loaders " + strings.Join(d, " ")
+		if !out.OK() {
+			t.Fatalf("C15: start failed: %v\n%s", out, desc)
+		}
+		// the class of the winner: unordered if any, else ordered, else priority; inside it the last added (unordered)
+		// or any loader with the largest Order
+		adm := map[int]bool{}
+		for cls := 2; cls >= 0 && len(adm) == 0; cls-- {
+			best := math.MinInt
+			for i, s := range specs {
+				if s.class != cls {
+					continue
+				}
+				if cls == 2 {
+					adm = map[int]bool{i: true} // later unordered loaders replace earlier ones
+					continue
+				}
+				if s.order > best || len(adm) == 0 {
+					best, adm = s.order, map[int]bool{i: true}
+				} else if s.order == best {
+					adm[i] = true
+				}
+			}
+		}
+		got, _ := canon(out.App.Get("c15o.k")).(int64)
+		if !adm[int(got)] || out.App.Get("c15o.k") == nil {
+			t.Fatalf("C15: c15o.k = %v, i.e. loader %v was merged last; by the loader sequence it must be one of %v\n%s", out.App.Get("c15o.k"), got, adm, desc)
+		}
+		for i := range specs {
+			if v := canon(out.App.Get(fmt.Sprintf("c15o.own%d", i))); v != int64(100+i) {
+				t.Fatalf("C15: the key only loader %d supplies reads %v, want %d\n%s", i, v, 100+i, desc)
+			}
+		}
+		extreme := false
+		for _, s := range specs {
+			if s.class < 2 && (s.order <= math.MinInt+1 || s.order >= math.MaxInt-1) {
+				extreme = true
+			}
+		}
+		kit.Rec.Case(desc, n >= 2, map[bool]string{true: "ordered-loaders-extreme-orders", false: "ordered-loaders"}[extreme])
 	})
 }
